@@ -32,8 +32,8 @@ fn binfo(op: &str) -> (u32, bool) { let b = BINS.iter().find(|b| b.0 == op).unwr
 struct G<'a> { rng: &'a mut Rng, loops: usize, noml: usize, comok: bool, argcom: bool }
 impl<'a> G<'a> {
     fn name(&mut self) -> String { self.rng.pick(NAMES).to_string() }
-    /// an index or a table key that begins with a long-bracket string is outside L0 (the formatter keeps it away from the `[` with a blank: expression.rs is_brackets_string)
-    fn no_brk_key(&mut self, k: E) -> E { if starts_brk(&k) { E::Name(self.name()) } else { k } }
+    /// (an index or a table key may begin with a long-bracket string: the model writes the blank that keeps it away from the `[`, Fmt0.brk)
+    fn no_brk_key(&mut self, k: E) -> E { k }
     fn atom(&mut self, vararg: bool) -> E {
         match self.rng.below(9) {
             0 => E::Nil, 1 => E::True, 2 => E::False,
@@ -233,6 +233,8 @@ impl<'a> G<'a> {
 // ---- the tree as an S-expression (blanks written `_`, as ml/sexp.ml expects) ----
 fn hx(s: &str) -> String { let h = hex(s.as_bytes()); if h == "#" || h.is_empty() { "#".to_string() } else { h } }
 fn starts_brk(e: &E) -> bool { match e { E::Long(_, _) => true, E::Paren(x) => starts_brk(x), E::Bin(_, l, _) => starts_brk(l), _ => false } }
+/// the source text of the expression starts with a long-bracket string (a blank must then separate it from a `[` in front of it)
+fn starts_brk_src(e: &E) -> bool { match e { E::Long(_, _) => true, E::Bin(_, l, _) => starts_brk_src(l), E::Field(p, _) | E::Index(p, _) | E::Call(p, _) | E::Method(p, _, _) => starts_brk_src(p), _ => false } }
 fn starts_paren(e: &E) -> bool {
     match e { E::Paren(_) => true, E::Bin(_, l, _) => starts_paren(l), E::Field(p, _) | E::Index(p, _) | E::Call(p, _) | E::Method(p, _, _) => starts_paren(p), _ => false }
 }
@@ -298,7 +300,7 @@ impl<'a> P<'a> {
             E::Str(q, s) => { let q = q.to_string(); self.t(&q); self.t(s); self.t(&q); }
             E::Long(l, s) => { let eq = "=".repeat(*l); self.t(&format!("[{}[{}]{}]", eq, s, eq)); }
             E::Field(p, n) => { self.e(p); self.bl(); self.t("."); self.bl(); self.t(n); }
-            E::Index(p, k) => { self.e(p); self.bl(); self.t("["); self.bl(); self.e(k); self.bl(); self.t("]"); }
+            E::Index(p, k) => { self.e(p); self.bl(); self.t("["); if starts_brk_src(k) { self.t(" "); } self.bl(); self.e(k); self.bl(); self.t("]"); }
             E::Call(f, a) => { self.e(f); self.args(a); }
             E::Method(o, m, a) => { self.e(o); self.bl(); self.t(":"); self.bl(); self.t(m); self.args(a); }
             E::Un(u, x) => { self.t(u); self.t(" "); self.e(x); }
@@ -346,7 +348,7 @@ impl<'a> P<'a> {
         match f {
             F::Pos(x) => self.e(x),
             F::Named(n, x) => { self.t(n); self.ws(); self.t("="); self.ws(); self.e(x); }
-            F::Key(k, x) => { self.t("["); self.bl(); self.e(k); self.bl(); self.t("]"); self.ws(); self.t("="); self.ws(); self.e(x); }
+            F::Key(k, x) => { self.t("["); if starts_brk_src(k) { self.t(" "); } self.bl(); self.e(k); self.bl(); self.t("]"); self.ws(); self.t("="); self.ws(); self.e(x); }
             F::Line(_, g, _) => { let g = (**g).clone(); self.field(&g); }
             F::Com(_, _) => {}
         }
